@@ -82,10 +82,24 @@ var focusTypes = func() map[string]bool {
 	return m
 }()
 
+// typesWithoutConstructor: types the translator could not give a constructor (it reports them as failed and bin/vcheck treats
+// that as a broken tie); the harness leaves them out instead of stopping.
+var typesWithoutConstructor []string
+
 func typeKeys(kind string) []string {
 	var out []string
 	for k, t := range genTypes {
 		if t.Kind == kind && (focusTypes == nil || focusTypes[k]) {
+			if len(ctorsOf(k)) == 0 {
+				found := false
+				for _, x := range typesWithoutConstructor {
+					found = found || x == k
+				}
+				if !found {
+					typesWithoutConstructor = append(typesWithoutConstructor, k)
+				}
+				continue
+			}
 			out = append(out, k)
 		}
 	}
